@@ -1,3 +1,3 @@
 #!/bin/bash
 # independent re-check of all compiled property files (and everything they depend on) with coqchk; prints the axioms they rely on (~8 min)
-cd /verif/coq && timeout 3000 coqchk -o -silent -Q . DX $(for i in $(seq -w 1 19); do echo DX.PropC$i; done) | tee COQCHK.txt
+cd /verif/coq && timeout 3000 coqchk -o -silent -Q . DX $(for i in $(seq -w 1 19); do echo DX.PropC$i; done) 2>&1 | tee COQCHK.txt
